@@ -92,6 +92,22 @@ def classes():
         BOUND.append(OBJ_IDS.get(id(self)))
         super()._on_bound()
 
+    class C09Chk(pg.Object):          # fields that REJECT values: a fixed nested schema with a bounded Int, an object field
+      allow_symbolic_assignment = True
+      opt: pg.typing.Dict([('lr', pg.typing.Any(default=1)), ('n', pg.typing.Int(min_value=0, default=0))])
+      o: pg.typing.Object(C09Inner).set_default(C09Inner())
+      x: pg.typing.Any(default=None)
+
+    class C09ChkSub(C09Chk):
+      def _on_change(self, field_updates):
+        on_event(OBJ_IDS.get(id(self)), field_updates)
+        return super()._on_change(field_updates)
+
+      def _on_bound(self):
+        BOUND.append(OBJ_IDS.get(id(self)))
+        super()._on_bound()
+
+    _CLS.update(chk=C09Chk, chksub=C09ChkSub)
     _CLS.update(sub=C09Sub, plain=C09Plain, mid=C09Mid, req=C09Req, pure=C09Pure, inner=C09Inner,
                 innersub=C09InnerSub, defsub=C09DefSub)
     _CLS['def'] = C09Def
@@ -345,7 +361,7 @@ def build(t):
     v = pg.List([build(c) for _, c in t['items']], onchange_callback=cb)
   elif t['k'] == 'dict':
     v = pg.Dict({k: build(c) for k, c in t['items']}, onchange_callback=cb)
-  elif t['k'] in ('def', 'inner'):
+  elif t['k'] in ('def', 'inner', 'chk'):
     v = cls[t['k'] + ('sub' if t.get('sub') else '')](**{k: build(c) for k, c in t['items']})
     OBJ_IDS[id(v)] = nid
   elif t['k'] == 'req':
@@ -453,11 +469,16 @@ _E_DEF = {'k': 'dict', 'c': 0, 'items': [['u', 2], ['w', None]]}
 _A_DEF = {'k': 'dict', 'c': 0, 'items': [['k', 1], ['j', None], ['e', _E_DEF]]}
 _D_DEF = {'k': 'dict', 'c': 0, 'items': [['a', _A_DEF], ['b', 0]]}
 _INNER_DEF = {'k': 'obj', 'c': 2, 'items': [['k', 1], ['m', None]]}
+_OPT_DEF = {'k': 'dict', 'c': 0, 'items': [['lr', 1], ['n', 0]]}
+# what the fields of the `chk` classes accept (model: `Rules`): [class number, field, type]
+_OPT_TY = {'dict': [['lr', 'any'], ['n', {'int': 0}]]}
+RULES = [[c_, 'opt', _OPT_TY] for c_ in (5, 15)] + [[c_, 'o', {'obj': [2, 12]}] for c_ in (5, 15)]
 CLASS_SPECS = {
     'obj': (1, [['x', {'d': None}], ['y', {'d': None}], ['z', {'d': None}]]),
     'inner': (2, [['k', {'d': 1}], ['m', {'d': None}]]),
     'def': (3, [['d', {'d': _D_DEF}], ['o', {'d': _INNER_DEF}], ['x', {'d': None}]]),
     'req': (4, [['r', {'req': True}], ['x', {'d': None}]]),
+    'chk': (5, [['opt', {'d': _OPT_DEF}], ['o', {'d': _INNER_DEF}], ['x', {'d': None}]]),
 }
 
 
@@ -468,19 +489,25 @@ def annotate(t):
     return t
   out = dict(t)
   out['items'] = [[k, annotate(c)] for k, c in t['items']]
+  if t.get('bind') == 'opt':
+    out = _bind(out, _OPT_DEF)          # a value for the field `opt`: bound to its schema once accepted
   if t.get('ref') is not None:
     out.pop('ref')
     out.update(k='obj', c=9, sch=[], items=[])      # pg.Ref: an object of a class without symbolic fields
     return out
   if t['k'] in CLASS_SPECS:
     c, sch = CLASS_SPECS[t['k']]
-    if t.get('sub') and t['k'] in ('def', 'inner'):
+    if t.get('sub') and t['k'] in ('def', 'inner', 'chk'):
       c += 10          # the subscribing variant is a subclass: another class than the one of the default
     out.update(k='obj', c=c, sch=sch)
     if t['k'] == 'def':
       for it in out['items']:
         if it[0] == 'd':
           it[1] = _bind(it[1], _D_DEF)
+    if t['k'] == 'chk':
+      for it in out['items']:
+        if it[0] == 'opt':
+          it[1] = _bind(it[1], _OPT_DEF)
   return out
 
 
@@ -964,6 +991,8 @@ class C09(Prop):
       yield c
     for c in self.ref_item_cases(rng, 350 if tier == 'quick' else 7000):
       yield c
+    for c in self.rejected_write_cases(rng, 400 if tier == 'quick' else 8000):
+      yield c
 
   def read_cases(self, rng, n):
     """Histories in which the harness READS derived facts only at chosen nodes at chosen moments (so
@@ -1415,6 +1444,112 @@ class C09(Prop):
       made += 1
       yield {'tree': t, 'ext': e, 'steps': steps, 'forest': True}
 
+  def rejected_write_cases(self, rng, n):
+    """Writes that a value spec REFUSES -- KeyError (a key the nested schema does not have), TypeError
+    (an atom / a list / an object of another class where a Dict or an object of a class is due, a str
+    where an int is due), ValueError (an int below the minimum, None) -- on fields whose current value
+    is symbolic (a schema-bound Dict, an object), by attribute assignment or a one-pair rebind from the
+    owner or an ancestor, notified or silent; then mutations INSIDE the value that stayed in place: every
+    subscribing ancestor hears of them and no memo is stale. Accepted replacements are mixed in."""
+    g = Gen(rng)
+    ctr = [100]
+    def nid():
+      ctr[0] += 1
+      return ctr[0]
+    def opt_val():
+      return {'k': 'dict', 'id': 0, 'sub': False, 'typed': True, 'bind': 'opt',
+              'items': [['lr', g.atom()], ['n', rng.randint(0, 9)]]}
+    def inner_val():
+      return {'k': 'inner', 'id': nid(), 'sub': rng.chance(0.5), 'typed': True,
+              'items': [['k', g.atom()], ['m', g.atom()]]}
+    def bad_opt():
+      k_ = rng.below(7)
+      d = {'k': 'dict', 'id': 0, 'sub': False, 'items': [['lr', g.atom()], ['n', rng.randint(0, 9)]]}
+      if k_ == 0:
+        d['items'].append([rng.choice(['zz', 'steps']), g.atom()])
+        return d, 'KeyError'
+      if k_ == 1:
+        d['items'][1] = ['stepz', 5]
+        d['items'].append(['n', 1])
+        return d, 'KeyError'
+      if k_ == 2:
+        return rng.choice([5, 'p', fresh('list', [1])]), 'TypeError'
+      if k_ == 3:
+        d['items'][1][1] = rng.choice(['p', 'q'])
+        return d, 'TypeError'
+      if k_ == 4:
+        d['items'][1][1] = -rng.randint(1, 5)
+        return d, 'ValueError'
+      if k_ == 5:
+        return None, 'ValueError'
+      return inner_val(), 'TypeError'
+    def bad_o():
+      k_ = rng.below(4)
+      if k_ == 0:
+        return rng.choice([3, 'p']), 'TypeError'
+      if k_ == 1:
+        return fresh('dict', [['k', 1]]), 'TypeError'
+      if k_ == 2:
+        return {'k': 'obj', 'id': nid(), 'sub': False, 'items': [['x', 1], ['y', None], ['z', None]]}, 'TypeError'
+      return None, 'ValueError'
+    for _ in range(n):
+      g.next_id = 10
+      g.no_obj = False
+      ctr[0] = 100
+      owner = {'k': 'chk', 'id': nid(), 'sub': rng.chance(0.7), 'typed': True,
+               'items': [['opt', dict(opt_val(), bind=None)], ['o', inner_val()],
+                         ['x', g.atom() if rng.chance(0.6) else g.tree(1, None, 0.5)]]}
+      del owner['items'][0][1]['bind']
+      wrap = rng.below(4)
+      if wrap == 0:
+        t, opath = owner, []
+      elif wrap == 1:
+        t, opath = {'k': 'dict', 'id': 1, 'sub': rng.chance(0.7), 'items': [['h', owner], ['c', g.atom()]]}, ['h']
+      elif wrap == 2:
+        t, opath = {'k': 'list', 'id': 1, 'sub': rng.chance(0.7), 'items': [[0, g.atom()], [1, owner]]}, [1]
+      else:
+        mid = {'k': 'dict', 'id': 2, 'sub': rng.chance(0.5), 'items': [['h', owner]]}
+        t, opath = {'k': 'obj', 'id': 1, 'sub': rng.chance(0.7), 'items': [['x', mid], ['y', g.atom()], ['z', None]]}, ['x', 'h']
+      shadow = json.loads(json.dumps(t))
+      steps = []
+      def write(field, v):
+        """An attribute assignment on the owner, or a one-pair rebind from the owner / an ancestor."""
+        how = rng.below(3)
+        if how == 0:
+          return {'recv': opath, 'call': {'name': 'setkey', 'key': field, 'v': v}}
+        cut = rng.randint(0, len(opath)) if how == 2 else len(opath)
+        return {'recv': opath[:cut], 'call': {'name': 'rebind', 'pairs': [[opath[cut:] + [field], v]]}}
+      rejected = False
+      for _ in range(rng.randint(2, 6)):
+        k_ = rng.below(10)
+        if k_ < 4 or (not rejected and k_ < 6):
+          field = rng.choice(['opt', 'opt', 'o'])
+          v, err = bad_opt() if field == 'opt' else bad_o()
+          step = dict(write(field, v), notify=rng.chance(0.8), rej=err)
+          steps.append(step)
+          rejected = True
+          continue                      # refused: the shadow stays as it is
+        if k_ < 9:
+          # a mutation inside a value that is (still) in place
+          field = rng.choice(['opt', 'opt', 'o'])
+          key = rng.choice(['lr', 'n'] if field == 'opt' else ['k', 'm'])
+          v = rng.randint(0, 9) if key == 'n' else g.atom()
+          cut = rng.randint(0, len(opath) + 1)
+          full = opath + [field]
+          if rng.chance(0.5) or cut == len(full):
+            step = {'recv': full, 'call': {'name': 'setkey', 'key': key, 'v': v}}
+          else:
+            step = {'recv': full[:cut], 'call': {'name': 'rebind', 'pairs': [[full[cut:] + [key], v]]}}
+          step['notify'] = rng.chance(0.85)
+        else:
+          field = rng.choice(['opt', 'o'])
+          step = dict(write(field, opt_val() if field == 'opt' else inner_val()), notify=rng.chance(0.85))
+        steps.append(step)
+        mirror(shadow, json.loads(json.dumps(step)))
+      if not rejected:
+        continue
+      yield {'tree': t, 'steps': steps, 'rules': True}
+
   def model_request(self, case):
     if case.get('facts_only'):
       return None
@@ -1443,6 +1578,8 @@ class C09(Prop):
     req = {'op': 'run', 'tree': annotate(case['tree']), 'steps': steps}
     if case.get('forest'):
       req['ext'] = annotate(case['ext'])
+    if case.get('rules'):
+      req['rules'] = RULES
     if case.get('react'):
       req['react'] = [[rid, rpath, rcall] for rid, rpath, rcall in case['react']]
       req['fuel'] = case.get('fuel', 0)
@@ -1525,7 +1662,7 @@ class C09(Prop):
                 return False, type(e).__name__
           ok, err = worker.run(call)
           events = canon_log(LOG)
-          bound = list(BOUND)
+          bound = [b_ for b_ in BOUND if b_ is not None]      # None: the _on_bound of a value under construction
           outs.append({'ok': ok, 'err': err, 'events': events, 'bound': bound,
                        'stale': stale_facts(trees[which]), 'stale_other': stale_facts(trees[other]),
                        'reads': leafmap_reads(trees[which]),
@@ -1581,7 +1718,7 @@ class C09(Prop):
       events = canon_log(LOG)
       tagged = [dict(e) for e in LOG]
       nested = list(RSTATE['calls'])
-      bound = list(BOUND)
+      bound = [b_ for b_ in BOUND if b_ is not None]      # None: the _on_bound of a value under construction
       if chosen:
         outs.append({'ok': ok, 'err': err, 'events': events, 'reads': [], 'value': canon(root), 'pre': pre, 'stale': [],
                      'bound': bound, 'tagged': tagged, 'nested': nested})
@@ -1603,7 +1740,8 @@ class C09(Prop):
       outs.append({'ok': ok, 'err': err, 'events': events, 'reads': leafmap_reads(root) if with_reads else [],
                    'value': canon(root), 'pre': pre, 'stale': stale, 'bound': bound, 'tagged': tagged,
                    'nested': nested})
-    model = {'steps': [{'ok': o['ok'], 'events': o['events'], 'reads': o['reads'], 'value': o['value']} for o in outs]}
+    model = {'steps': [{'ok': o['ok'], 'events': o['events'], 'reads': o['reads'], 'value': o['value'],
+                        'err': o.get('err')} for o in outs]}
     return {'model': model, 'steps': outs}
 
   def impl_read(self, case, root, step, pre):
@@ -1639,6 +1777,9 @@ class C09(Prop):
       y = dict(y)
       y['reads'] = sorted([[p, sorted(m, key=lambda e: json.dumps(e)), sorted(ms, key=lambda e: json.dumps(e))]
                            for p, m, ms in y['reads']], key=lambda e: json.dumps(e))
+      if y.get('rej') and x.get('err') != y['rej']:
+        return 'step %d (%s): the model says the write is refused with %s, impl: %s' % (
+            i, json.dumps(case['steps'][i])[:200], y['rej'], x.get('err'))
       for fld in ('ok', 'value', 'events', 'reads'):
         if x[fld] != y[fld]:
           return 'step %d (%s) field %s: impl=%s model=%s' % (
@@ -2029,6 +2170,8 @@ class C09(Prop):
       if 'scope' in s:
         h.append('op:scope-%s(%s)' % (s['scope'], s.get('v')))
         continue
+      if s.get('rej'):
+        h.append('refused-write:' + s['rej'])
       if s.get('in') == 'ext':
         h.append('in:ext')
       if 't' in s:
